@@ -340,19 +340,19 @@ def rule_r4(ctx):
               "the existence check does not reject on every existing destination", how="single raise guarded by the non-empty list of existing paths")
 
 
-def rule_r5(ctx):
+def rule_r5(ctx, rule="R5"):
     f = ctx.repo.func(f"{ED}:unload_from_model")
     cfg = CFG(f.node)
     a = [c for c in calls_in(f) if dotted_of(c.func) == "convert_tensors_from_external"]
     b = [c for c in calls_in(f) if dotted_of(c.func) == "_write_external_tensors"]
     ctx.require(len(b) == 1, "unload_from_model: _write_external_tensors call not found")
     if len(a) != 1:
-        ctx.check("R5", "convert_tensors_from_external dominates _write_external_tensors", False, f, b[0],
+        ctx.check(rule, "convert_tensors_from_external dominates _write_external_tensors", False, f, b[0],
                   "small external tensors are not copied to memory before the data files are rewritten", how="call present",
                   construct="missing convert_tensors_from_external")
         return
     an, bn = cfg.nodes_containing(a[0])[0], cfg.nodes_containing(b[0])[0]
-    ctx.check("R5", "convert_tensors_from_external dominates _write_external_tensors", cfg.dominates(an, bn) and an.id != bn.id, f, b[0],
+    ctx.check(rule, "convert_tensors_from_external dominates _write_external_tensors", cfg.dominates(an, bn) and an.id != bn.id, f, b[0],
               "data files are rewritten before the small external tensors that read from them are copied to memory",
               how="dominator query")
 
